@@ -68,7 +68,7 @@ def build(tier="quick", seed=0):
         want = {"packb-options": {("use_bin_type", True), ("unicode_errors", "surrogateescape")}, "unpackb-options": {("use_list", False), ("raw", False), ("unicode_errors", "surrogateescape")}}[which]
         evs = [set(e[1:-1]) for e in events if e[0] == which]
         # (further options are fine when they do not narrow what the format can carry: size limits at least as large as a frame can be, map keys of any type)
-        harmless = lambda k_, v_: k_ == "strict_map_key" or (k_.startswith("max_") and isinstance(v_, int) and v_ >= 2**32 - 1)
+        harmless = lambda k_, v_: k_ == "strict_map_key" or (k_.startswith("max_") and isinstance(v_, int) and v_ >= 2**32 - 1) or (k_ == "max_buffer_size" and v_ == 0)  # (msgpack: max_buffer_size=0 means 2**32-1)
         return bool(evs) and all(want <= e and all(harmless(*x_) for x_ in e - want) for e in evs)
 
     # ---------------------------------------------------------------- constants of the format
